@@ -90,7 +90,7 @@ Proof.
     destruct (slen c v) as [L|].
     + destruct (Nat.ltb (cN (ns s v)) L); injection Hstep as <-;
         (eapply Hkey; [exact Hv|intros w Hw; simpl; apply Hupd; auto|simpl; apply Hupds|simpl; rewrite ?Ct; simpl; lia]).
-    + destruct (is_perm perm (ins c v)) eqn:Hp; [|discriminate]. injection Hstep as <-.
+    + destruct (is_perm perm (ins c v)) eqn:Hp; [|discriminate]. destruct (par_sorted c perm); [|discriminate]. cbn [andb] in *. injection Hstep as <-.
       pose proof (perm_len _ _ Hp (nodup_ins c v)) as Hl. pose proof (ins_len v).
       eapply Hkey; [exact Hv|intros w Hw; simpl; apply Hupd; auto|simpl; apply Hupds|simpl; rewrite ?Ct; simpl; lia].
   - (* ARecv *)
@@ -103,8 +103,8 @@ Proof.
       eapply Hkey; [exact Hv|intros w Hw; simpl; apply Hupd; auto|simpl; apply Hupds|simpl; rewrite ?Ct; simpl; lia].
   - (* AEndRound *)
     destruct (ct (ns s v)) as [|todo0 saw| |] eqn:Ct; try discriminate.
-    destruct todo0; try discriminate. injection Hstep as <-.
-    eapply Hkey; [exact Hv|intros w Hw; simpl; apply Hupd; auto|simpl; apply Hupds|simpl; rewrite ?Ct; destruct saw; simpl; lia].
+    destruct saw; [destruct (forallb (epar c) todo0); try discriminate|destruct todo0; try discriminate]; cbn [andb] in *; injection Hstep as <-;
+    (eapply Hkey; [exact Hv|intros w Hw; simpl; apply Hupd; auto|simpl; apply Hupds|simpl; rewrite ?Ct; simpl; lia]).
   - (* AHand *)
     destruct (ct (ns s v)) eqn:Ct; try discriminate.
     destruct (rn (ns s v)) eqn:Rn; try discriminate. injection Hstep as <-.
